@@ -326,7 +326,17 @@ func runSingle(c *core.Ctx) {
 				s.retryDue = nil
 				s.lastFail = nil
 				s.markStale(true)
+				var running *inst
+				for _, in := range s.insts {
+					if in.returned == 0 && in.ctx.Err() == nil {
+						running = in
+					}
+				}
 				s.setContext(s.ctxs[s.ctxTag], true)
+				// restart=true restarts errored routines, and nothing else: a healthy running instance stays
+				if running != nil && running.returned == 0 && running.ctx.Err() != nil {
+					c.Fail("C14.M6.running-instance-restarted", "SetContext(same context, restart=true) cancelled instance %d, which was running (not exited, not errored)", running.n)
+				}
 			}
 		case k < 12:
 			c.Descf("op: ClearContext")
@@ -357,7 +367,7 @@ func runSingle(c *core.Ctx) {
 		}
 		s.settle()
 		// a failed exit of the current instance arms the retry obligation
-		if s.lastFail != nil && s.lastFail != prevFail && s.retry && s.ctxTag != 0 && s.lastFail.rid == myRid {
+		if s.lastFail != nil && s.lastFail != prevFail && s.retry && s.ctxTag != 0 && s.lastFail.rid == myRid && !(s.bo != nil && s.bo.stopped) {
 			s.retryDue = s.lastFail
 		}
 	}
